@@ -124,7 +124,7 @@ static void run(long i, vh_rng *r)
     fsg_model_t *fsg = NULL;
     long naccept = 0;
     double p_eps = vh_unit(r) * 0.6;
-    int tiny_probs = 0, npad = 0;
+    int tiny_probs = 0, npad = 0, n_core;
 
     int null_dense = vh_chance(r, 0.25), perm[16];
     if (null_dense) {
@@ -142,28 +142,36 @@ static void run(long i, vh_rng *r)
         }
     }
     if (null_dense != 2 && vh_chance(r, 0.6)) { start = 0; final = n_state - 1; }
+    /* sparse grammars: many more states than arcs (isolated, unreachable states take no room in FSG text) */
+    n_core = n_state;
+    if (i % 9 == 4) {
+        n_state = n_core + (vh_chance(r, 0.5) ? vh_range(r, 30, 400) : vh_range(r, 400, 3000));
+        if (vh_chance(r, 0.3)) final = n_core + (int)vh_below(r, (uint32_t)(n_state - n_core));
+        if (vh_chance(r, 0.1)) start = n_core + (int)vh_below(r, (uint32_t)(n_state - n_core));
+        vh_count("sparse_grammars", 1); vh_max("max_states", n_state);
+    }
     /* generator-side arcs */
     vfsa_init(&gen, n_state, start, final);
     for (k = 0; k < NSYM; ++k) gsyms[k] = vfsa_label(&gen, alpha[k]);
     for (k = 0; k < narcs; ++k) {
-        g[k].from = (int)vh_below(r, (uint32_t)n_state);
-        g[k].to = vh_chance(r, 0.15) ? g[k].from : (int)vh_below(r, (uint32_t)n_state);
-        if (vh_chance(r, 0.5) && g[k].from + 1 < n_state) g[k].to = g[k].from + 1; /* keep the grammar productive */
+        g[k].from = (int)vh_below(r, (uint32_t)n_core);
+        g[k].to = vh_chance(r, 0.15) ? g[k].from : (int)vh_below(r, (uint32_t)n_core);
+        if (vh_chance(r, 0.5) && g[k].from + 1 < n_core) g[k].to = g[k].from + 1; /* keep the grammar productive */
         g[k].sym = vh_chance(r, p_eps) ? -1 : (int)vh_below(r, NSYM);
         g[k].p = rand_prob(r);
         if (k > 0 && vh_chance(r, 0.1)) { g[k] = g[vh_below(r, (uint32_t)k)]; g[k].p = rand_prob(r); } /* duplicate arc, other probability */
-        if (null_dense == 2 && k < n_state * n_state) {
+        if (null_dense == 2 && k < n_core * n_core) {
             /* structurally closed null DAG with stale weights: every pair i<j (in a hidden order) has a direct
              * null arc, the unit steps are likely and the long arcs unlikely, so the closure never adds an arc
              * and must iterate on improvements alone */
-            int a = k / n_state, b = k % n_state;
+            int a = k / n_core, b = k % n_core;
             g[k].sym = -1;
             if (a < b) { g[k].from = perm[a]; g[k].to = perm[b]; g[k].p = (b == a + 1) ? (vh_chance(r, 0.7) ? 1.0 : 0.9) : VH_PICK(r, ((double[]){ 0.5, 0.1, 0.01, 0.3 })); }
             else { g[k].from = g[k].to = perm[0]; g[k].p = 1.0; } /* null self-loop: ignored by the API */
-        } else if (null_dense && k < n_state * n_state) {
-            g[k].from = k / n_state; g[k].to = k % n_state; g[k].sym = -1;
+        } else if (null_dense && k < n_core * n_core) {
+            g[k].from = k / n_core; g[k].to = k % n_core; g[k].sym = -1;
             g[k].p = vh_chance(r, 0.3) ? 1.0 : vh_chance(r, 0.5) ? 0.5 : 0.001 + 0.999 * vh_unit(r);
-            if (g[k].from == g[k].to || vh_chance(r, 0.3)) { g[k].sym = (int)vh_below(r, NSYM); g[k].to = (int)vh_below(r, (uint32_t)n_state); if (vh_chance(r, 0.7)) { g[k].from = g[k].to = 0; g[k].p = 1.0; g[k].sym = -1; } }
+            if (g[k].from == g[k].to || vh_chance(r, 0.3)) { g[k].sym = (int)vh_below(r, NSYM); g[k].to = (int)vh_below(r, (uint32_t)n_core); if (vh_chance(r, 0.7)) { g[k].from = g[k].to = 0; g[k].p = 1.0; g[k].sym = -1; } }
         }
         if (g[k].p < 5e-7) tiny_probs = 1;
         vfsa_add(&gen, g[k].from, g[k].to, g[k].sym < 0 ? VF_EPS : gsyms[g[k].sym], (int64_t)plog(g[k].p, lw));
@@ -173,7 +181,7 @@ static void run(long i, vh_rng *r)
     npad = vh_chance(r, 0.5) ? 0 : vh_range(r, 5, 75);
     if (npad) {
         g = (garc *)realloc(g, sizeof(garc) * (size_t)(narcs + npad + 1));
-        for (k = 0; k < npad; ++k) { garc *a = &g[narcs + k]; a->from = (int)vh_below(r, (uint32_t)n_state); a->to = (int)vh_below(r, (uint32_t)n_state); a->sym = NSYM + k; a->p = rand_prob(r); if (a->p < 5e-7) a->p = 0.25; vfsa_add(&gen, a->from, a->to, vfsa_label(&gen, vh_path("pad%02d", k)), (int64_t)plog(a->p, lw)); }
+        for (k = 0; k < npad; ++k) { garc *a = &g[narcs + k]; a->from = (int)vh_below(r, (uint32_t)n_core); a->to = (int)vh_below(r, (uint32_t)n_core); a->sym = NSYM + k; a->p = rand_prob(r); if (a->p < 5e-7) a->p = 0.25; vfsa_add(&gen, a->from, a->to, vfsa_label(&gen, vh_path("pad%02d", k)), (int64_t)plog(a->p, lw)); }
         vh_count("grammars_with_large_vocabulary", 1);
     }
     vfsa_table(&gen, NSYM, gsyms, MAXLEN, 1, truth);
